@@ -1,22 +1,26 @@
 """C19 — structlayout matches the compiler; optimize never grows a struct.
 
-Lean: Verif/C19/{Model,Lemmas,Theorems}.lean (gc rules = specification, go/gcsizes,
-cmd/structlayout `sizes`, cmd/structlayout-optimize `combine`/`optimize`/`pad`).
+Lean: Verif/C19/{Model,Lemmas,Optimize,Layout,Combine,CombineLayout,Leaves,Theorems}.lean
+(gc rules = specification, go/gcsizes, cmd/structlayout `sizes`, cmd/structlayout-optimize
+`combine`/`optimize`/`pad`; 18 property theorems, see notes/C19.md).
 
 Tie X and oracle, per run:
   1. a seeded generator makes N struct types (Ty trees); they are rendered as Go source;
-     ONE compiled program prints unsafe.Sizeof/Alignof/Offsetof of every node of every type
-     (the compiler = oracle);
-  2. the real go/gcsizes is called in-process (harness/cmd/c19sizes) on the same source;
-  3. the real binaries `structlayout -json . Ti | structlayout-optimize -json [-r]`, built
-     from the current tree, are run on every type;
-  4. the Lean model (c19driver) computes gc / gcsizes / layout / optimize for the same Ty;
-  5. a second compiled program measures the structs as reordered by structlayout-optimize;
-  6. synthetic record lists (not from a compiler) go through the real
-     structlayout-optimize binary and the model.
+  2. the real go/gcsizes is called in-process (harness/cmd/c19sizes) on that source;
+  3. the real `sizes` of cmd/structlayout and the complete real main of cmd/structlayout-optimize
+     [-r] run on every type inside two batch drivers compiled from the tree's own main.go files
+     (harness/cmd/c19batch/*.tmpl, `func main` renamed); a sample of the types additionally goes
+     through the real binaries `structlayout -json . Ti | structlayout-optimize -json [-r]`;
+  4. ONE compiled program prints unsafe.Sizeof/Alignof/Offsetof of every node of every type and
+     of every struct with its fields in the order structlayout-optimize proposed (the compiler =
+     oracle and reference of the Lean specification);
+  5. the Lean model (c19driver) computes gc / gcsizes / layout / leaves / optimize for the same Ty;
+  6. synthetic record lists (not from a compiler) go through the real structlayout-optimize and
+     the model.
 Oracle (on the real code's outputs only): gcsizes == compiler; structlayout's records tile
 [0, Sizeof T) and its field records are the compiler's leaves; optimize's output is a
-permutation of the input fields, a valid layout, and not larger than the original.
+permutation of the input fields, a valid layout, and not larger than the original; the proposed
+field order does not compile to a larger struct.
 """
 import json
 import os
@@ -41,6 +45,8 @@ THEOREMS = [
     "Verif.C19.optimize_valid",
     "Verif.C19.optimize_not_larger",
     "Verif.C19.optimize_not_larger_of_dvd",
+    # ... for every order an unstable sort.Sort may leave tied fields in
+    "Verif.C19.optimize_any_sort",
     # ... composed with structlayout, all struct types, both modes
     "Verif.C19.combine_layout_fields",
     "Verif.C19.optimize_layout_perm",
@@ -252,7 +258,8 @@ def render_module(ctx, d, types, extra_types=()):
     with open(os.path.join(d, "p", "types.go"), "w") as f:
         f.write("package p\n\n" + imp + body)
     types = list(types) + list(extra_types)
-    lines = ["package main", "", 'import ("fmt"; "unsafe")', ""]
+    # builtin println (to stderr) on constant operands: no fmt, no interface boxing, no type descriptors
+    lines = ["package main", "", 'import "unsafe"', ""]
     for i in range(len(types)):
         lines.append("var v%d T%d" % (i, i))
     lines.append("")
@@ -260,13 +267,11 @@ def render_module(ctx, d, types, extra_types=()):
     for i, t in enumerate(types):
         lines.append("func p%d() {" % i)
         for path, kind in nodes(t, []):
-            sel = "v%d" % i
-            offs = ["uintptr(0)"]
-            for comp in path:
-                sel += "." + comp
-                offs.append("unsafe.Offsetof(%s)" % sel)
-            lines.append('\tfmt.Println(%d, "%s", "%s", %s, unsafe.Sizeof(%s), unsafe.Alignof(%s))' % (
-                i, ".".join(["T"] + path), kind, "+".join(offs), sel, sel))
+            # offset relative to the enclosing struct; compile_facts sums along the path
+            sel = ".".join(["v%d" % i] + path)
+            off = "unsafe.Offsetof(%s)" % sel if path else "0"
+            lines.append('\tprintln(%d, "%s", "%s", %s, unsafe.Sizeof(%s), unsafe.Alignof(%s))' % (
+                i, ".".join(["T"] + path), kind, off, sel, sel))
         lines.append("}")
     lines.append("")
     lines.append("func main() {")
@@ -279,14 +284,23 @@ def render_module(ctx, d, types, extra_types=()):
 
 
 def compile_facts(ctx, d, n):
-    """go run the printing program: facts[i] = list of (name, kind, off, size, align)."""
-    rc, so, se = vlib.run([vlib.GO, "run", "."], cwd=d, env=vlib.go_env(), timeout=900)
+    """build and run the printing program: facts[i] = list of (name, kind, off, size, align)."""
+    prog = os.path.join(d, "prog.bin")
+    rc, so, se = vlib.run([vlib.GO, "build", "-o", prog, "."], cwd=d, env=vlib.go_env(), timeout=1800)
     if rc != 0:
-        raise vlib.HarnessError("generated program does not compile/run (generator bug):\n" + (so + se)[-3000:])
+        raise vlib.HarnessError("generated program does not compile (generator bug):\n" + (so + se)[-3000:])
+    rc, so, se = vlib.run([prog], cwd=d, timeout=600)
+    if rc != 0:
+        raise vlib.HarnessError("generated program failed:\n" + (so + se)[-3000:])
     facts = [[] for _ in range(n)]
-    for line in so.splitlines():
+    absoff = {}
+    for line in se.splitlines():
         p = line.split()
-        facts[int(p[0])].append((p[1], p[2], int(p[3]), int(p[4]), int(p[5])))
+        i, name = int(p[0]), p[1]
+        parent = name.rsplit(".", 1)[0] if "." in name else None
+        # nodes come in pre-order: the parent's absolute offset is known
+        absoff[(i, name)] = (absoff[(i, parent)] if parent is not None else 0) + int(p[3])
+        facts[i].append((name, p[2], absoff[(i, name)], int(p[4]), int(p[5])))
     return facts
 
 
@@ -809,22 +823,22 @@ def run(ctx):
         synth_n = 0
         extra_synth = [c["input"] for c in rp.get("cases", []) if "ty" not in c and "input" in c]
     else:
-        ngen = 300 if ctx.quick else 4000
+        ngen = 240 if ctx.quick else 3000
         types = load_corpus() + [gen.top() for _ in range(ngen)]
-        synth_n = 800 if ctx.quick else 10000
+        synth_n = 800 if ctx.quick else 8000
         extra_synth = []
 
     fails, diffs = [], []
     ctx.notes.append("t_setup=%.1fs" % (vlib.time.time() - ctx.t0))
-    chunk = 500
+    chunk = 640
     for c in range(0, len(types), chunk):
-        f, d = pipeline(ctx, bins, types[c:c + chunk], "c%d" % c, stats, cli_sample=(4 if ctx.quick else 40) if c == 0 else (0 if ctx.quick else 8))
+        f, d = pipeline(ctx, bins, types[c:c + chunk], "c%d" % c, stats, cli_sample=(2 if ctx.quick else 30) if c == 0 else (0 if ctx.quick else 5))
         fails += f
         diffs += d
     synth_cases = []
     if synth_n:
         r2 = rng.fork("synth")
-        f, d, synth_cases = synth_stream(ctx, bins, [synth_records(r2) for _ in range(synth_n)], stats, cli_sample=4 if ctx.quick else 60)
+        f, d, synth_cases = synth_stream(ctx, bins, [synth_records(r2) for _ in range(synth_n)], stats, cli_sample=2 if ctx.quick else 40)
         fails += f
         diffs += d
     if extra_synth:
@@ -857,7 +871,13 @@ def run(ctx):
         "types": len(allt), "corpus_types": len(load_corpus()) if not ctx.replay else 0,
         "stats": stats, "generator_histogram": dict(sorted(gen.hist.items())),
         "violation_search_types": searched,
-        "samples": [{"model_input": " ".join(model_tokens(t)), "go": go_src(t, {})} for t in allt[:3] + allt[-3:]],
+        "samples": [{"model_input": " ".join(model_tokens(t)), "go": go_src(t, {})} for t in allt[:3] + allt[-3:]]
+                   + [{"synthetic_records": show(c)} for c in synth_cases[:2]],
+        "correspondence_streams": ["gcsizes (Sizeof/Alignof/Offsetsof) vs model gcs", "structlayout records vs model lay",
+                                   "structlayout-optimize vs model opt 0", "structlayout-optimize -r vs model opt 1",
+                                   "structlayout-optimize [-r] on synthetic records vs model optrec",
+                                   "compiler (unsafe.*) vs Lean specification gc / leaves"],
+        "model_vs_code_differences": len(diffs), "oracle_failures": len(fails),
     })
     ctx.assumptions += [
         "amd64 only (word size 8, max alignment 8): the Lean model fixes WordSize = MaxAlign = 8; gcsizes.ForArch reads build.Default.GOARCH of the machine the check runs on",
@@ -903,17 +923,18 @@ def run(ctx):
 
 META = {
     "level": "proof",
-    "technique": "Lean 4 theorems (17, no Mathlib) over transliterated models of go/gcsizes, cmd/structlayout `sizes` and cmd/structlayout-optimize "
+    "technique": "Lean 4 theorems (18, no Mathlib) over transliterated models of go/gcsizes, cmd/structlayout `sizes` and cmd/structlayout-optimize "
                  "combine/sort/pad and over a specification of the gc compiler's layout rules, for all types of the type grammar and all record lists; "
                  "executable correspondence (X) of the models with the real code and of the specification with the real compiler on seeded generated struct types",
     "text": "Proved for ALL struct types of the grammar (basic kinds, pointer-shaped kinds, named/alias, arrays incl. length 0, nested and empty structs): "
             "every type has an alignment in {1,2,4,8} dividing its size; gcsizes.Sizeof/Alignof/Offsetsof = the compiler's rules; structlayout's records tile "
             "[0, Sizeof T) without gap or overlap, fields are aligned, and the field records are exactly the compiler's leaves (name, absolute offset, size, alignment; "
             "a zero-size field ending a non-empty struct may show the added byte). Proved for ALL record lists: structlayout-optimize -r outputs a permutation of the "
-            "input fields that is a valid layout, and (alignments powers of two, input a valid roomy layout) is never larger than the input; proved for ALL struct types: "
+            "input fields that is a valid layout, and (alignments powers of two, input a valid roomy layout) is never larger than the input, for every order "
+            "an unstable sort may leave tied fields in; proved for ALL struct types: "
             "structlayout | structlayout-optimize [-r] is a permutation of the (top-level resp. leaf) fields as the compiler has them, a valid layout, and at most Sizeof T "
-            "(default mode: for distinct field names). Explored, not proved: that the Lean models are the Go code (compared on every run on ~320/4000 generated types + "
-            "800/10000 synthetic record lists + the corpus, through the real functions and, for a sample, the real binaries) and that the Lean specification is the "
+            "(default mode: for distinct field names). Explored, not proved: that the Lean models are the Go code (compared on every run on ~260/3000 generated types + "
+            "800/8000 synthetic record lists + the corpus, through the real functions and, for a sample, the real binaries) and that the Lean specification is the "
             "compiler (compared with a compiled program on every generated type).",
     "note": "Trusted: Lean kernel; the compiled Lean driver; the Go compiler as oracle; go/types; the python check and Go harness. amd64 only. Four defects found by this "
             "check were fixed in /repo (08f02f6, 16fd1e2, 58a3d61, 169e4a6).",
